@@ -1105,7 +1105,7 @@ func OpenedWithoutPrivate(store db.DB, id string, pub []byte, js []byte) []strin
 			var mp snacl.SecretKey
 			c := append([]byte{}, cand...)
 			if mp.Unmarshal(params) == nil && mp.DeriveKey(&c) == nil {
-				out = append(out, where+" derives with "+name)
+				out = append(out, where+"(master-key parameters) opens with "+name)
 				k := *mp.Key
 				keys["scrypt-key-of-"+name+"("+where+")"] = &k
 			}
